@@ -96,7 +96,7 @@ def determined(pname, ppos, rpos, pure_translation):
     out = []
     for x in rpos:
         x = np.array(x, dtype=float)
-        if pname not in COLLINEAR:
+        if pname.split("@")[0] not in COLLINEAR:
             out.append(True)
         elif n == 1:
             out.append(pure_translation or np.abs(x - P[0]).max() < 1e-9)
@@ -129,7 +129,7 @@ def make_case(rng, tier="quick", cell_kind=None, pname=None, boundary="default",
     ppos = [[float(p[i]) + shift[i] for i in range(3)] for p in ppos]
     if rp_kind is None:
         rp_kind = rng.choice(RP_KINDS)
-        if pname in COLLINEAR and rng.random() < 0.4:
+        if pname.split("@")[0] in COLLINEAR and rng.random() < 0.4:
             rp_kind = "on_axis"
     rel, rpos, shared = build_replacement(rng, pel, ppos, rp_kind)
     tags = [100.0 + k + 0.5 for k in range(len(rel))]
